@@ -42,6 +42,15 @@ Theorem C12_5321_addresses_included_in_822 :
 Proof. exact addr_5321_in_822. Qed.
 Print Assumptions C12_5321_addresses_included_in_822.
 
+(* empty address, no AT, empty domain, local part over 64 bytes: the same record in all four modes (mode 6531 included) *)
+Theorem C12_basic_rejections_mode_independent :
+  forall idn g tbl (m1 m2 : mode) t a,
+    a = [] \/ split_last AT a = None \/ (exists l, split_last AT a = Some (l, [])) \/
+    (exists l d, split_last AT a = Some (l, d) /\ (64 < length l)%nat) ->
+    email idn g tbl m1 t a = email idn g tbl m2 t a.
+Proof. exact email_basic_rejections. Qed.
+Print Assumptions C12_basic_rejections_mode_independent.
+
 (* for a fixed domain part the ASCII modes report the same domain verdict, class and flags *)
 Theorem C12_domain_verdict_mode_independent :
   forall idn g tbl m1 m2 t l1 l2 d,
